@@ -24,9 +24,133 @@ const H1: u64 = 3_600 * S; // 1 hour, from the property text
 const KEY_D4: &str = "C07:discount-above-lowered-price";
 const KEY_D8: &str = "C07:non-native-min-price-governance";
 
+const KEY_GOV_FLOOR: &str = "C07:price-below-governance-minimum";
+const KEY_GOV_PARAMS: &str = "C07:factory-minimum-differs-from-governance";
+
+/// One governance proposal (sudo UpdateParams on the factory): any subset of the optional
+/// fields.  Sent by this harness itself so that every field of the message can be set.
+#[derive(Clone, Debug, Default, Serialize, Deserialize, PartialEq, Eq)]
+pub struct Gov {
+    /// (amount, denom is IBC)
+    pub min_price: Option<(u128, bool)>,
+    pub creation_fee: Option<u128>,
+    pub mint_fee_bps: Option<u64>,
+    pub offset: Option<u64>,
+    pub airdrop_price: Option<u128>,
+    pub airdrop_fee_bps: Option<u64>,
+    pub max_pal: Option<u32>,
+    pub max_token_limit: Option<u32>,
+    /// vending factory only
+    pub shuffle_fee: Option<u128>,
+}
+
+/// The harness's own record of what governance last decided about the minimum mint price:
+/// the value of the factory's instantiate message, then the last value supplied by a
+/// proposal that was accepted (a proposal that does not mention it keeps it).  Never read
+/// back from the factory.
+#[derive(Clone, Debug)]
+pub struct Ledger {
+    pub min: u128,
+    pub denom: String,
+}
+
+fn coinj(amount: u128, denom: &str) -> Value {
+    json!({"amount": amount.to_string(), "denom": denom})
+}
+
+fn gov_msg(g: &Gov, vending: bool, airdrop_denom: &str) -> Value {
+    let ext = if vending {
+        json!({"max_token_limit": g.max_token_limit, "max_per_address_limit": g.max_pal,
+               "airdrop_mint_price": g.airdrop_price.map(|p| coinj(p, NATIVE)),
+               "airdrop_mint_fee_bps": g.airdrop_fee_bps,
+               "shuffle_fee": g.shuffle_fee.map(|p| coinj(p, NATIVE))})
+    } else {
+        json!({"max_token_limit": g.max_token_limit, "max_per_address_limit": g.max_pal,
+               "min_mint_price": null,
+               "airdrop_mint_price": g.airdrop_price.map(|p| coinj(p, airdrop_denom)),
+               "airdrop_mint_fee_bps": g.airdrop_fee_bps,
+               "dev_fee_address": null})
+    };
+    json!({"update_params": {
+        "code_id": null, "add_sg721_code_ids": null, "rm_sg721_code_ids": null, "frozen": null,
+        "creation_fee": g.creation_fee.map(|f| coinj(f, NATIVE)),
+        "min_mint_price": g.min_price.map(|(p, ibc)| coinj(p, denom_name(ibc))),
+        "mint_fee_bps": g.mint_fee_bps, "max_trading_offset_secs": g.offset,
+        "extension": ext}})
+}
+
+/// bookkeeping shared by the vending and open-edition drivers after a proposal was sent:
+/// updates the ledger, returns the Coq `CGov` case and the violation if the factory now
+/// reports another minimum than governance decided
+fn gov_after(ledger: &mut Ledger, g: &Gov, ok: bool, params_after: &Value, denoms: &mut Ids) -> (String, Option<String>) {
+    let before = format!("(mkCoin {} {})", denoms.id(&ledger.denom), ledger.min);
+    let supplied = match g.min_price {
+        Some((p, ibc)) => format!("(Some (mkCoin {} {}))", denoms.id(denom_name(ibc)), p),
+        None => "None".to_string(),
+    };
+    if ok {
+        if let Some((p, ibc)) = g.min_price {
+            ledger.min = p;
+            ledger.denom = denom_name(ibc).to_string();
+        }
+    }
+    let rep_min = amount_of(&params_after["min_mint_price"]);
+    let rep_denom = denom_of(&params_after["min_mint_price"]);
+    let coq = format!("(CGov {} {} {} (mkCoin {} {}))", before, supplied, coq_bool(ok), denoms.id(&rep_denom), rep_min);
+    let viol = if rep_min != ledger.min || rep_denom != ledger.denom {
+        Some(format!(
+            "after governance proposal {:?} ({}): the factory reports a minimum of {} {} but governance last set {} {}",
+            g,
+            if ok { "accepted" } else { "rejected" },
+            rep_min,
+            rep_denom,
+            ledger.min,
+            ledger.denom
+        ))
+    } else {
+        None
+    };
+    (coq, viol)
+}
+
+/// a random proposal: the minimum (around `min`) in 3 of 4, each other field in 1 of 4
+fn gen_gov(rng: &mut Rng, min_choices: &[u128], vending: bool) -> Gov {
+    let mut g = Gov::default();
+    if rng.chance(3, 4) {
+        g.min_price = Some((*rng.pick(min_choices), rng.chance(1, 12)));
+    }
+    if rng.chance(1, 3) {
+        g.creation_fee = Some(*rng.pick(&[5_000u128, 6_000, 1, 4_999]));
+    }
+    if rng.chance(1, 5) {
+        g.mint_fee_bps = Some(*rng.pick(&[500u64, 1000, 2000]));
+    }
+    if rng.chance(1, 5) {
+        g.offset = Some(*rng.pick(&[604_800u64, 86_400]));
+    }
+    if rng.chance(1, 6) {
+        g.airdrop_price = Some(*rng.pick(&[10u128, 40, 41]));
+    }
+    if rng.chance(1, 6) {
+        g.airdrop_fee_bps = Some(*rng.pick(&[5000u64, 10000]));
+    }
+    if rng.chance(1, 6) {
+        g.max_pal = Some(*rng.pick(&[10u32, 50, 40]));
+    }
+    if rng.chance(1, 6) {
+        g.max_token_limit = Some(*rng.pick(&[100u32, 10000, 5000]));
+    }
+    if vending && rng.chance(1, 6) {
+        g.shuffle_fee = Some(*rng.pick(&[500u128, 600]));
+    }
+    g
+}
+
 #[derive(Clone, Debug, Serialize, Deserialize, PartialEq, Eq)]
 pub enum Step {
     Op(Op),
+    /// governance proposal on the factory
+    Gov(Gov),
     /// move the clock to t0 + ns (absolute, only forward)
     AtNs { ns: u64 },
     /// read MintPrice; `who` mints attaching quoted-1, quoted+1, every other advertised
@@ -64,6 +188,9 @@ pub struct CreateCase {
     pub world_price: u128,
     /// governance change of the minimum before the probes
     pub sudo_min: Option<u128>,
+    /// ... in the same proposal as a new creation fee
+    #[serde(default)]
+    pub sudo_fee: Option<u128>,
     /// (price, denom is IBC) of further create_minter messages sent to the same factory
     pub probes: Vec<(u128, bool)>,
 }
@@ -80,6 +207,7 @@ pub enum Case {
 #[derive(Clone, Debug, Serialize, Deserialize, PartialEq, Eq)]
 pub enum OStep {
     Op(OeOp),
+    Gov(Gov),
     AtNs { ns: u64 },
     /// read MintPrice; `who` mints attaching quoted-1, quoted+1, every other advertised
     /// price (public / whitelist), and finally exactly the quote
@@ -100,6 +228,8 @@ pub struct OeCreateCase {
     pub world_price: u128,
     pub world_capped: bool,
     pub sudo_min: Option<u128>,
+    #[serde(default)]
+    pub sudo_fee: Option<u128>,
     /// (price, denom is IBC, has a token cap) of further create_minter messages
     pub probes: Vec<(u128, bool, bool)>,
 }
@@ -108,6 +238,8 @@ pub struct CaseResult {
     pub coq: Vec<String>,
     /// cases of the second set (`oecase`, checked by sale_oe_check)
     pub coq_oe: Vec<String>,
+    /// further cases of the first set produced inside a sale history (governance proposals)
+    pub coq_extra: Vec<String>,
     pub steps: u64,
     pub ok_steps: u64,
     pub violations: Vec<(String, String, usize)>, // (key, what, index of the step that showed it)
@@ -192,6 +324,8 @@ pub struct Driver {
     vname: &'static str,
     created_min_denom: String,
     gov_min_changed: bool,
+    /// what governance last decided (independent of the factory's answers)
+    pub ledger: Ledger,
     /// block time of the last accepted discount change (set or removal) in this history
     pub last_change: Option<u64>,
     /// discount standing according to the accepted operations seen
@@ -208,9 +342,11 @@ impl Driver {
     pub fn new(w: SaleWorld) -> Driver {
         let vname = w.v.name;
         let created_min_denom = denom_of(&w.factory_params()["min_mint_price"]);
+        let ledger = Ledger { min: w.cfg.fp.min_price, denom: w.cfg.fp.denom.clone() };
         Driver {
+            ledger,
             w,
-            res: CaseResult { coq: vec![], coq_oe: vec![], steps: 0, ok_steps: 0, violations: vec![], hist: BTreeMap::new(), executed: vec![], executed_oe: vec![] },
+            res: CaseResult { coq: vec![], coq_oe: vec![], coq_extra: vec![], steps: 0, ok_steps: 0, violations: vec![], hist: BTreeMap::new(), executed: vec![], executed_oe: vec![] },
             vname,
             created_min_denom,
             gov_min_changed: false,
@@ -291,9 +427,10 @@ impl Driver {
     pub fn op(&mut self, op: &Op) -> bool {
         let b = self.before();
         let out = self.w.run(op);
-        if let Op::SudoParams { min_price: Some(_), .. } = op {
+        if let Op::SudoParams { min_price: Some(m), .. } = op {
             if out.ok {
                 self.gov_min_changed = true;
+                self.ledger = Ledger { min: *m, denom: NATIVE.into() };
             }
         }
         if !out.is_minter_step {
@@ -335,6 +472,10 @@ impl Driver {
                     if *price < min_b {
                         self.violate("C07:update-price-below-minimum", format!("UpdateMintPrice {} accepted under a factory minimum of {} {}", price, min_b, min_denom_b));
                     }
+                    if *price < self.ledger.min {
+                        let l = self.ledger.clone();
+                        self.violate(KEY_GOV_FLOOR, format!("UpdateMintPrice {} accepted while governance last set the minimum to {} {} (the factory reports {} {})", price, l.min, l.denom, min_b, min_denom_b));
+                    }
                     if b.now >= start_b && *price >= public_b {
                         self.violate(
                             "C07:price-not-lowered-after-start",
@@ -373,6 +514,10 @@ impl Driver {
                     }
                     if *price < min_b {
                         self.violate("C07:discount-below-minimum", format!("UpdateDiscountPrice {} accepted under a factory minimum of {} {}", price, min_b, min_denom_b));
+                    }
+                    if *price < self.ledger.min {
+                        let l = self.ledger.clone();
+                        self.violate(KEY_GOV_FLOOR, format!("UpdateDiscountPrice {} accepted while governance last set the minimum to {} {} (the factory reports {} {})", price, l.min, l.denom, min_b, min_denom_b));
                     }
                     if let Some(l) = self.last_change {
                         if b.now < l + H12 {
@@ -432,6 +577,10 @@ impl Driver {
                             let wd = denom_of(&wc["mint_price"]);
                             if wp < min_b {
                                 self.violate("C07:whitelist-price-below-minimum", format!("SetWhitelist accepted: whitelist price {} under a factory minimum of {} {}", wp, min_b, min_denom_b));
+                            }
+                            if wp < self.ledger.min {
+                                let l = self.ledger.clone();
+                                self.violate(KEY_GOV_FLOOR, format!("SetWhitelist accepted: whitelist price {} while governance last set the minimum to {} {} (the factory reports {} {})", wp, l.min, l.denom, min_b, min_denom_b));
                             }
                             if wd != min_denom_b {
                                 self.violate("C07:whitelist-denom-differs-from-minimum", format!("SetWhitelist accepted: whitelist denom {} but the minimum in force is in {}", wd, min_denom_b));
@@ -565,6 +714,21 @@ impl Driver {
             Step::Op(op) => {
                 self.op(op);
             }
+            Step::Gov(g) => {
+                let f = self.w.factory.clone();
+                let ok = chain::sudo(&mut self.w.app, &f, &gov_msg(g, true, NATIVE)).is_ok();
+                if ok && g.min_price.is_some() {
+                    self.gov_min_changed = true;
+                }
+                let params = self.w.factory_params();
+                let (coq, viol) = gov_after(&mut self.ledger, g, ok, &params, &mut self.w.denoms);
+                self.res.coq_extra.push(coq);
+                self.res.steps += 1;
+                *self.res.hist.entry(format!("{}:governance:{}", self.vname, if ok { "ok" } else { "err" })).or_insert(0) += 1;
+                if let Some(v) = viol {
+                    self.violate(KEY_GOV_PARAMS, v);
+                }
+            }
             Step::AtNs { ns } => {
                 self.w.run(&Op::At { secs: ns / S, nanos: (ns % S) as i64 });
             }
@@ -578,7 +742,7 @@ pub fn run_sale(c: &SaleCase, gen: Option<(&mut Rng, usize, &[u128])>) -> CaseRe
     let mut w = match SaleWorld::new(cfg_of(c)) {
         Ok(w) => w,
         Err(_) => {
-            let mut r = CaseResult { coq: vec![], coq_oe: vec![], steps: 0, ok_steps: 0, violations: vec![], hist: BTreeMap::new(), executed: vec![], executed_oe: vec![] };
+            let mut r = CaseResult { coq: vec![], coq_oe: vec![], coq_extra: vec![], steps: 0, ok_steps: 0, violations: vec![], hist: BTreeMap::new(), executed: vec![], executed_oe: vec![] };
             *r.hist.entry(format!("{}:create:err", VARIANTS[c.variant].name)).or_insert(0) += 1;
             return r;
         }
@@ -720,7 +884,11 @@ fn next_step(rng: &mut Rng, d: &Driver, c: &SaleCase, lits: &[u128]) -> Step {
                 2 => min + rng.range(1, 10) as u128,
                 _ => min.saturating_sub(rng.range(1, 10) as u128).max(1),
             };
-            Step::Op(Op::SudoParams { min_price: Some(m), mint_fee_bps: None, airdrop_price: None, airdrop_fee_bps: None, offset: None, max_pal: None, shuffle_fee: None })
+            let mut g = gen_gov(rng, &[m], true);
+            if let Some(l) = g.max_token_limit {
+                g.max_token_limit = Some(l.max(5000)); // keep the running minter's own size legal
+            }
+            Step::Gov(g)
         }
         // ---- whitelist / start time (only meaningful before the start) ----
         80..=85 => {
@@ -757,7 +925,7 @@ fn fp_coq_of(c: &CreateCase) -> String {
 }
 
 pub fn run_create(c: &CreateCase) -> CaseResult {
-    let mut r = CaseResult { coq: vec![], coq_oe: vec![], steps: 0, ok_steps: 0, violations: vec![], hist: BTreeMap::new(), executed: vec![], executed_oe: vec![] };
+    let mut r = CaseResult { coq: vec![], coq_oe: vec![], coq_extra: vec![], steps: 0, ok_steps: 0, violations: vec![], hist: BTreeMap::new(), executed: vec![], executed_oe: vec![] };
     let vname = VARIANTS[c.variant].name;
     let mut cfg = SaleCfg::basic(c.variant);
     cfg.fp.min_price = c.min_price;
@@ -778,8 +946,17 @@ pub fn run_create(c: &CreateCase) -> CaseResult {
     if c.world_price < c.min_price {
         r.violations.push(("C07:creation-below-minimum".into(), format!("{}: minter created at {} under a factory minimum of {}", vname, c.world_price, c.min_price), 0));
     }
-    if let Some(m) = c.sudo_min {
-        w.run(&Op::SudoParams { min_price: Some(m), mint_fee_bps: None, airdrop_price: None, airdrop_fee_bps: None, offset: None, max_pal: None, shuffle_fee: None });
+    let mut ledger = Ledger { min: c.min_price, denom: denom_name(c.ibc).into() };
+    if c.sudo_min.is_some() || c.sudo_fee.is_some() {
+        let g = Gov { min_price: c.sudo_min.map(|m| (m, false)), creation_fee: c.sudo_fee, ..Default::default() };
+        let f = w.factory.clone();
+        let ok = chain::sudo(&mut w.app, &f, &gov_msg(&g, true, NATIVE)).is_ok();
+        let params = w.factory_params();
+        let (coq, viol) = gov_after(&mut ledger, &g, ok, &params, &mut w.denoms);
+        r.coq.push(coq);
+        if let Some(v) = viol {
+            r.violations.push((KEY_GOV_PARAMS.into(), format!("{}: {}", vname, v), 0));
+        }
     }
     let sg721 = w.factory_params()["allowed_sg721_code_ids"][0].as_u64().unwrap();
     for (i, (price, ibc)) in c.probes.iter().enumerate() {
@@ -807,7 +984,7 @@ pub fn run_create(c: &CreateCase) -> CaseResult {
                          "royalty_info": {"payment_address": CREATOR, "share": "0.1"}}
             }}});
         let f = w.factory.clone();
-        let fee = w.cfg.fp.creation_fee;
+        let fee = amount_of(&params["creation_fee"]);
         let res = chain::exec(&mut w.app, CREATOR, &f, &msg, &[coin(fee, NATIVE)]);
         let ok = res.is_ok();
         r.steps += 1;
@@ -819,6 +996,9 @@ pub fn run_create(c: &CreateCase) -> CaseResult {
         r.coq.push(format!("(CCreate {} {} {} {})", fp, price, did, coq_bool(ok)));
         if ok && *price < min_now {
             r.violations.push(("C07:creation-below-minimum".into(), format!("{}: create_minter at {} {} accepted under a factory minimum of {} {}", vname, price, denom, min_now, min_denom_now), i + 1));
+        }
+        if ok && *price < ledger.min {
+            r.violations.push((KEY_GOV_FLOOR.into(), format!("{}: create_minter at {} {} accepted while governance last set the minimum to {} {} (the factory reports {} {})", vname, price, denom, ledger.min, ledger.denom, min_now, min_denom_now), i + 1));
         }
         if ok && denom != min_denom_now {
             r.violations.push(("C07:creation-wrong-denom".into(), format!("{}: create_minter at {} {} accepted while the factory minimum is in {}", vname, price, denom, min_denom_now), i + 1));
@@ -850,7 +1030,10 @@ fn rdp() -> Step {
     Step::Op(Op::RemoveDiscountPrice { who: CREATOR.into() })
 }
 fn sudo_min(m: u128) -> Step {
-    Step::Op(Op::SudoParams { min_price: Some(m), mint_fee_bps: None, airdrop_price: None, airdrop_fee_bps: None, offset: None, max_pal: None, shuffle_fee: None })
+    Step::Gov(Gov { min_price: Some((m, false)), ..Default::default() })
+}
+fn gov(g: Gov) -> Step {
+    Step::Gov(g)
 }
 fn probe(who: &str) -> Step {
     Step::Probe { who: who.into() }
@@ -963,6 +1146,60 @@ fn corpus() -> Vec<Case> {
             probe(BUYERS[1]),
         ];
         v.push(Case::Sale(g));
+        // (H) governance proposals of every shape inside a price history: the minimum together
+        // with the creation fee, with each other field, alone, not at all, in a refused denom;
+        // after each one the price just below the decided minimum must be refused
+        let mut h = base_case(variant);
+        let m = |p: u128| Some((p, false));
+        h.steps = vec![
+            gov(Gov { min_price: m(60), creation_fee: Some(6_000), ..Default::default() }),
+            ump(59),
+            ump(60),
+            gov(Gov { min_price: m(62), mint_fee_bps: Some(900), ..Default::default() }),
+            ump(61),
+            ump(62),
+            gov(Gov { min_price: m(64), offset: Some(86_400), ..Default::default() }),
+            ump(63),
+            ump(64),
+            gov(Gov { min_price: m(66), airdrop_price: Some(10), ..Default::default() }),
+            ump(65),
+            ump(66),
+            gov(Gov { min_price: m(68), airdrop_fee_bps: Some(5000), ..Default::default() }),
+            ump(67),
+            ump(68),
+            gov(Gov { min_price: m(70), max_pal: Some(40), ..Default::default() }),
+            ump(69),
+            ump(70),
+            gov(Gov { min_price: m(72), shuffle_fee: Some(600), ..Default::default() }),
+            ump(71),
+            ump(72),
+            gov(Gov { min_price: m(74), max_token_limit: Some(9000), ..Default::default() }),
+            ump(73),
+            ump(74),
+            gov(Gov { min_price: m(76), ..Default::default() }),
+            ump(75),
+            ump(76),
+            gov(Gov { creation_fee: Some(7_000), ..Default::default() }),     // the minimum is not mentioned: stays 76
+            ump(75),
+            gov(Gov { min_price: Some((40, true)), creation_fee: Some(1), ..Default::default() }), // IBC minimum: whole proposal refused
+            ump(75),
+            gov(Gov { min_price: m(55), creation_fee: Some(5_000), mint_fee_bps: Some(1000), offset: Some(604_800), airdrop_price: Some(0),
+                      airdrop_fee_bps: Some(10000), max_pal: Some(50), max_token_limit: Some(10000), shuffle_fee: Some(500) }),
+            ump(54),
+            ump(90),
+            set_wl(variant, 100, 300, 54, false),
+            set_wl(variant, 100, 300, 55, false),
+            gov(Gov { min_price: m(57), creation_fee: Some(5_001), ..Default::default() }),
+            at(start),
+            udp(56),                                                             // below the decided minimum: refused
+            udp(57),
+            probe(BUYERS[0]),
+            gov(Gov { min_price: m(58), creation_fee: Some(5_000), ..Default::default() }),
+            ump(57),                                                             // lower than 90, below the decided minimum: refused
+            ump(58),
+            probe(BUYERS[1]),
+        ];
+        v.push(Case::Sale(h));
         // (D) whitelist price while the attached whitelist is active; replacing it
         let mut dcase = base_case(variant);
         dcase.wl = true;
@@ -1040,15 +1277,26 @@ fn corpus() -> Vec<Case> {
                 min_price: 50,
                 world_price: wp,
                 sudo_min: None,
+                sudo_fee: None,
                 probes: vec![(49, ibc), (50, ibc), (51, ibc), (50, !ibc), (1000, !ibc)],
             }));
         }
+        v.push(Case::Create(CreateCase {
+            variant,
+            ibc: false,
+            min_price: 50,
+            world_price: 50,
+            sudo_min: Some(70),
+            sudo_fee: Some(6_000),
+            probes: vec![(69, false), (70, false), (50, false)],
+        }));
         v.push(Case::Create(CreateCase {
             variant,
             ibc: variant % 2 == 1,
             min_price: 50,
             world_price: 50,
             sudo_min: Some(70),
+            sudo_fee: None,
             probes: vec![(69, false), (70, false), (71, false), (69, true), (70, true), (50, variant % 2 == 1)],
         }));
     }
@@ -1122,6 +1370,7 @@ pub struct OeDriver {
     vname: &'static str,
     created_min_denom: String,
     gov_min_changed: bool,
+    pub ledger: Ledger,
     started_price: Option<u128>,
     pub mints_ok: BTreeMap<String, u32>,
 }
@@ -1130,9 +1379,11 @@ impl OeDriver {
     pub fn new(w: OeWorld) -> OeDriver {
         let vname = w.v.name;
         let created_min_denom = denom_of(&w.factory_params()["min_mint_price"]);
+        let ledger = Ledger { min: w.cfg.fp.min_price, denom: w.cfg.fp.denom.clone() };
         OeDriver {
+            ledger,
             w,
-            res: CaseResult { coq: vec![], coq_oe: vec![], steps: 0, ok_steps: 0, violations: vec![], hist: BTreeMap::new(), executed: vec![], executed_oe: vec![] },
+            res: CaseResult { coq: vec![], coq_oe: vec![], coq_extra: vec![], steps: 0, ok_steps: 0, violations: vec![], hist: BTreeMap::new(), executed: vec![], executed_oe: vec![] },
             vname,
             created_min_denom,
             gov_min_changed: false,
@@ -1172,9 +1423,10 @@ impl OeDriver {
         let min = self.w.factory_params()["min_mint_price"].clone();
         let wl_active_b = self.wl_active_now(&b);
         let out = self.w.run(op);
-        if let OeOp::SudoParams { min_price: Some(_), .. } = op {
+        if let OeOp::SudoParams { min_price: Some(m), .. } = op {
             if out.ok {
                 self.gov_min_changed = true;
+                self.ledger = Ledger { min: *m, denom: NATIVE.into() };
             }
         }
         if !out.is_minter_step {
@@ -1216,6 +1468,10 @@ impl OeDriver {
                     if *price < min_b {
                         self.violate("C07:update-price-below-minimum", format!("UpdateMintPrice {} accepted under a factory minimum of {} {}", price, min_b, min_denom_b));
                     }
+                    if *price < self.ledger.min {
+                        let l = self.ledger.clone();
+                        self.violate(KEY_GOV_FLOOR, format!("UpdateMintPrice {} accepted while governance last set the minimum to {} {} (the factory reports {} {})", price, l.min, l.denom, min_b, min_denom_b));
+                    }
                     if now >= start_b && *price >= public_b {
                         self.violate(
                             "C07:price-not-lowered-after-start",
@@ -1251,6 +1507,10 @@ impl OeDriver {
                         let wd = denom_of(&wc["mint_price"]);
                         if wp < min_b {
                             self.violate("C07:whitelist-price-below-minimum", format!("SetWhitelist accepted: whitelist price {} under a factory minimum of {} {}", wp, min_b, min_denom_b));
+                        }
+                        if wp < self.ledger.min {
+                            let l = self.ledger.clone();
+                            self.violate(KEY_GOV_FLOOR, format!("SetWhitelist accepted: whitelist price {} while governance last set the minimum to {} {} (the factory reports {} {})", wp, l.min, l.denom, min_b, min_denom_b));
                         }
                         if wd != min_denom_b {
                             self.violate("C07:whitelist-denom-differs-from-minimum", format!("SetWhitelist accepted: whitelist denom {} but the minimum in force is in {}", wd, min_denom_b));
@@ -1349,6 +1609,22 @@ impl OeDriver {
             OStep::Op(op) => {
                 self.op(op);
             }
+            OStep::Gov(g) => {
+                let f = self.w.factory.clone();
+                let ad = self.w.cfg.fp.denom.clone();
+                let ok = chain::sudo(&mut self.w.app, &f, &gov_msg(g, false, &ad)).is_ok();
+                if ok && g.min_price.is_some() {
+                    self.gov_min_changed = true;
+                }
+                let params = self.w.factory_params();
+                let (coq, viol) = gov_after(&mut self.ledger, g, ok, &params, &mut self.w.denoms);
+                self.res.coq_extra.push(coq);
+                self.res.steps += 1;
+                *self.res.hist.entry(format!("{}:governance:{}", self.vname, if ok { "ok" } else { "err" })).or_insert(0) += 1;
+                if let Some(v) = viol {
+                    self.violate(KEY_GOV_PARAMS, v);
+                }
+            }
             OStep::AtNs { ns } => {
                 self.w.run(&OeOp::At { secs: ns / S, nanos: (ns % S) as i64 });
             }
@@ -1361,7 +1637,7 @@ pub fn run_oe_sale(c: &OeSaleCase, gen: Option<(&mut Rng, usize, &[u128])>) -> C
     let mut w = match OeWorld::new(c.cfg.clone()) {
         Ok(w) => w,
         Err(_) => {
-            let mut r = CaseResult { coq: vec![], coq_oe: vec![], steps: 0, ok_steps: 0, violations: vec![], hist: BTreeMap::new(), executed: vec![], executed_oe: vec![] };
+            let mut r = CaseResult { coq: vec![], coq_oe: vec![], coq_extra: vec![], steps: 0, ok_steps: 0, violations: vec![], hist: BTreeMap::new(), executed: vec![], executed_oe: vec![] };
             *r.hist.entry(format!("{}:create:err", OE_VARIANTS[c.cfg.variant].name)).or_insert(0) += 1;
             return r;
         }
@@ -1444,7 +1720,15 @@ fn next_ostep(rng: &mut Rng, d: &OeDriver, c: &OeSaleCase, lits: &[u128]) -> OSt
                 2 => 0,
                 _ => min.saturating_sub(rng.range(1, 10) as u128),
             };
-            OStep::Op(OeOp::SudoParams { min_price: Some(m), mint_fee_bps: None, airdrop_price: None, airdrop_fee_bps: None, offset: None, max_pal: None, max_token_limit: None, dev: None })
+            let mut g = gen_gov(rng, &[m], false);
+            g.shuffle_fee = None;
+            if let Some(l) = g.max_token_limit {
+                g.max_token_limit = Some(l.max(100));
+            }
+            if g.airdrop_price == Some(0) {
+                g.airdrop_price = Some(10);
+            }
+            OStep::Gov(g)
         }
         67..=76 => OStep::Op(OeOp::SetWhitelist { who: admin_or(rng), spare: rng.below(c.cfg.spares.len().max(1) as u64 + 1) as usize }),
         77..=80 => {
@@ -1495,7 +1779,7 @@ fn oump(price: u128) -> OStep {
     OStep::Op(OeOp::UpdateMintPrice { who: CREATOR.into(), price })
 }
 fn osudo_min(m: u128) -> OStep {
-    OStep::Op(OeOp::SudoParams { min_price: Some(m), mint_fee_bps: None, airdrop_price: None, airdrop_fee_bps: None, offset: None, max_pal: None, max_token_limit: None, dev: None })
+    OStep::Gov(Gov { min_price: Some((m, false)), ..Default::default() })
 }
 fn oprobe(who: &str) -> OStep {
     OStep::Probe { who: who.into() }
@@ -1563,6 +1847,54 @@ fn oe_corpus() -> Vec<Case> {
                 oprobe(BUYERS[0]),
             ],
         }));
+        // (G) governance proposals of every shape inside a price history
+        {
+            let m = |p: u128| Some((p, false));
+            v.push(Case::OeSale(OeSaleCase {
+                cfg: oe_cfg(variant, false, 50, 100, true),
+                steps: vec![
+                    OStep::Gov(Gov { min_price: m(51), creation_fee: Some(6_000), ..Default::default() }),
+                    oump(50),
+                    oump(51),
+                    oset_wl(1),                                                            // 50 < 51: refused
+                    oset_wl(2),                                                            // 51: accepted
+                    OStep::Gov(Gov { min_price: m(62), mint_fee_bps: Some(900), ..Default::default() }),
+                    oump(61),
+                    oump(62),
+                    OStep::Gov(Gov { min_price: m(64), offset: Some(86_400), ..Default::default() }),
+                    oump(63),
+                    oump(64),
+                    OStep::Gov(Gov { min_price: m(66), airdrop_price: Some(10), ..Default::default() }),
+                    oump(65),
+                    oump(66),
+                    OStep::Gov(Gov { min_price: m(68), airdrop_fee_bps: Some(4000), ..Default::default() }),
+                    oump(67),
+                    oump(68),
+                    OStep::Gov(Gov { min_price: m(70), max_pal: Some(9), ..Default::default() }),
+                    oump(69),
+                    oump(70),
+                    OStep::Gov(Gov { min_price: m(72), max_token_limit: Some(90), ..Default::default() }),
+                    oump(71),
+                    oump(72),
+                    OStep::Gov(Gov { min_price: m(76), ..Default::default() }),
+                    oump(75),
+                    oump(76),
+                    OStep::Gov(Gov { creation_fee: Some(7_000), ..Default::default() }),
+                    oump(75),
+                    OStep::Gov(Gov { min_price: Some((40, true)), creation_fee: Some(1), ..Default::default() }),
+                    oump(75),
+                    OStep::Gov(Gov { min_price: m(57), creation_fee: Some(5_000), mint_fee_bps: Some(1000), offset: Some(604_800), airdrop_price: Some(40),
+                                     airdrop_fee_bps: Some(5000), max_pal: Some(10), max_token_limit: Some(100), shuffle_fee: None }),
+                    oump(56),
+                    oump(90),
+                    oat(start),
+                    OStep::Gov(Gov { min_price: m(80), creation_fee: Some(5_001), ..Default::default() }),
+                    oump(79),                                                              // lower than 90 but below the decided minimum: refused
+                    oump(80),
+                    oprobe(BUYERS[0]),
+                ],
+            }));
+        }
         // (C) attaching whitelists: price below / at the minimum, other denom, raised minimum; whitelist price while active
         v.push(Case::OeSale(OeSaleCase {
             cfg: oe_cfg(variant, false, 50, 100, true),
@@ -1610,6 +1942,7 @@ fn oe_corpus() -> Vec<Case> {
                 world_price: wp,
                 world_capped: true,
                 sudo_min: None,
+                sudo_fee: None,
                 probes: vec![(49, ibc, true), (50, ibc, true), (51, ibc, false), (50, !ibc, true), (1000, !ibc, false)],
             }));
         }
@@ -1620,7 +1953,18 @@ fn oe_corpus() -> Vec<Case> {
             world_price: 50,
             world_capped: variant != 2,
             sudo_min: Some(70),
+            sudo_fee: None,
             probes: vec![(69, false, true), (70, false, true), (71, false, false), (69, true, true), (70, true, true), (50, variant == 1, true)],
+        }));
+        v.push(Case::OeCreate(OeCreateCase {
+            variant,
+            ibc: false,
+            min_price: 50,
+            world_price: 50,
+            world_capped: true,
+            sudo_min: Some(70),
+            sudo_fee: Some(6_000),
+            probes: vec![(69, false, true), (70, false, true), (50, false, false)],
         }));
         v.push(Case::OeCreate(OeCreateCase {
             variant,
@@ -1629,6 +1973,7 @@ fn oe_corpus() -> Vec<Case> {
             world_price: 1,
             world_capped: true,
             sudo_min: Some(0),
+            sudo_fee: None,
             probes: vec![(0, false, true), (0, false, false), (1, false, false)],
         }));
     }
@@ -1642,7 +1987,7 @@ fn gen_oe_sale(rng: &mut Rng, variant: usize) -> OeSaleCase {
 }
 
 pub fn run_oe_create(c: &OeCreateCase) -> CaseResult {
-    let mut r = CaseResult { coq: vec![], coq_oe: vec![], steps: 0, ok_steps: 0, violations: vec![], hist: BTreeMap::new(), executed: vec![], executed_oe: vec![] };
+    let mut r = CaseResult { coq: vec![], coq_oe: vec![], coq_extra: vec![], steps: 0, ok_steps: 0, violations: vec![], hist: BTreeMap::new(), executed: vec![], executed_oe: vec![] };
     let vname = OE_VARIANTS[c.variant].name;
     let mut cfg = oe_cfg(c.variant, c.ibc, c.min_price, c.world_price, c.world_capped);
     cfg.spares = vec![];
@@ -1660,8 +2005,18 @@ pub fn run_oe_create(c: &OeCreateCase) -> CaseResult {
     if c.world_price < c.min_price {
         r.violations.push(("C07:creation-below-minimum".into(), format!("{}: minter created at {} under a factory minimum of {}", vname, c.world_price, c.min_price), 0));
     }
-    if let Some(m) = c.sudo_min {
-        w.run(&OeOp::SudoParams { min_price: Some(m), mint_fee_bps: None, airdrop_price: None, airdrop_fee_bps: None, offset: None, max_pal: None, max_token_limit: None, dev: None });
+    let mut ledger = Ledger { min: c.min_price, denom: denom_name(c.ibc).into() };
+    if c.sudo_min.is_some() || c.sudo_fee.is_some() {
+        let g = Gov { min_price: c.sudo_min.map(|m| (m, false)), creation_fee: c.sudo_fee, ..Default::default() };
+        let f = w.factory.clone();
+        let ad = w.cfg.fp.denom.clone();
+        let ok = chain::sudo(&mut w.app, &f, &gov_msg(&g, false, &ad)).is_ok();
+        let params = w.factory_params();
+        let (coq, viol) = gov_after(&mut ledger, &g, ok, &params, &mut w.denoms);
+        r.coq.push(coq);
+        if let Some(v) = viol {
+            r.violations.push((KEY_GOV_PARAMS.into(), format!("{}: {}", vname, v), 0));
+        }
     }
     let sg721 = w.factory_params()["allowed_sg721_code_ids"][0].as_u64().unwrap();
     for (i, (price, ibc, capped)) in c.probes.iter().enumerate() {
@@ -1688,7 +2043,7 @@ pub fn run_oe_create(c: &OeCreateCase) -> CaseResult {
                          "start_trading_time": null,
                          "royalty_info": {"payment_address": CREATOR, "share": "0.1"}}}}});
         let f = w.factory.clone();
-        let fee = w.cfg.fp.creation_fee;
+        let fee = amount_of(&params["creation_fee"]);
         let res = chain::exec(&mut w.app, CREATOR, &f, &msg, &[coin(fee, NATIVE)]);
         let ok = res.is_ok();
         r.steps += 1;
@@ -1701,6 +2056,9 @@ pub fn run_oe_create(c: &OeCreateCase) -> CaseResult {
         r.coq.push(format!("(COeCreate {} {} {} {} {} {})", min_now, mdid, price, did, coq_bool(*capped), coq_bool(ok)));
         if ok && *price < min_now {
             r.violations.push(("C07:creation-below-minimum".into(), format!("{}: create_minter at {} {} accepted under a factory minimum of {} {}", vname, price, denom, min_now, min_denom_now), i + 1));
+        }
+        if ok && *price < ledger.min {
+            r.violations.push((KEY_GOV_FLOOR.into(), format!("{}: create_minter at {} {} accepted while governance last set the minimum to {} {} (the factory reports {} {})", vname, price, denom, ledger.min, ledger.denom, min_now, min_denom_now), i + 1));
         }
         if ok && denom != min_denom_now {
             r.violations.push(("C07:creation-wrong-denom".into(), format!("{}: create_minter at {} {} accepted while the factory minimum is in {}", vname, price, denom, min_denom_now), i + 1));
@@ -1759,7 +2117,7 @@ pub fn run(a: &Args) {
         vec![(rf.case, 0)]
     } else {
         let mut v: Vec<(Case, usize)> = corpus().into_iter().map(|c| (c, 0)).collect();
-        let per_variant = if a.thorough() { 80 } else { 12 };
+        let per_variant = if a.thorough() { 80 } else { 10 };
         for variant in 0..6 {
             for _ in 0..per_variant {
                 let len = rng.range(35, 60) as usize;
@@ -1768,7 +2126,7 @@ pub fn run(a: &Args) {
         }
         // part 2: open edition
         v.extend(oe_corpus().into_iter().map(|c| (c, 0)));
-        let per_oe = if a.thorough() { 80 } else { 10 };
+        let per_oe = if a.thorough() { 80 } else { 8 };
         for variant in 0..3 {
             for _ in 0..per_oe {
                 let len = rng.range(30, 50) as usize;
@@ -1852,10 +2210,12 @@ pub fn run(a: &Args) {
             });
         }
         coq_cases.extend(r.coq);
+        coq_cases.extend(r.coq_extra);
         oe_cases.extend(r.coq_oe);
     }
     rep.rule = "sale histories (UpdateMintPrice/UpdateDiscountPrice/RemoveDiscountPrice/SetWhitelist/sudo min_mint_price/UpdateStartTime/probing mints at quoted-1, quoted+1, other advertised prices and the quote) on each of the six vending minters, native and IBC-denominated factories, at start±1ns, +12h(−1,0,+1 ns), +1h(−1,0,+1 ns), prices at min±1 / old±1 / discount±1; plus create_minter probes at min−1/min/min+1 and the other denom; corpus first. evaluations = minter steps and creation messages executed on the real contracts; distinct_nontrivial = those that were accepted (state-changing) || part 2: the same on each of the three open-edition minters created through the open-edition factory (UpdateMintPrice/SetWhitelist of pre-created spare whitelists at price min-1/min/min+1 and the other denom/sudo min_mint_price/UpdateStartTime/probing mints; no discount operations exist there), with and without a token cap, native and IBC-denominated factories, at start±1ns and the end time; open-edition create_minter probes at min-1/min/min+1, the other denom and zero price without a cap".into();
     rep.notes.push("SetWhitelist denom: the property text forbids attaching a whitelist priced in a denom different from the factory minimum in force; that is checked on all nine minters (whitelist-denom-differs-from-minimum). The four non-flex vending minters and the three open-edition minters additionally refuse a whitelist whose denom differs from the minter's own mint denom (stated in C07_set_whitelist_ok / C07_oe_set_whitelist_ok), and the monitor whitelist-denom-differs-from-mint-denom reports an accepted one there. The two vending wl-flex variants never had that check: after governance re-denominates the minimum of an IBC factory (the D8 situation) they accept a native-denom whitelist while selling in the IBC denom; this satisfies the property's clause (the whitelist is in the denom of the minimum in force), is a consequence of the recorded finding D8 and is deliberately not reported separately.".into());
+    rep.notes.push("Governance ledger: the harness sends every sudo UpdateParams itself (random subsets of the optional fields, the minimum together with the creation fee / each other field / alone / absent / in a refused denom) and keeps its own record of the minimum governance last decided (instantiate value, then the last value supplied by an accepted proposal); floors are monitored against that record (C07:price-below-governance-minimum) and the factory's Params answer is compared with it after every proposal (C07:factory-minimum-differs-from-governance, and the CGov correspondence cases against Params.native_or_err).".into());
     out.write_cases("C07", "From LP Require Import Num Pay Sg1 Bank MinterVending CreatePrice SaleCorr C07Corr.", "c07_case", "c07_check", &coq_cases, 6, &mut rep);
     if !oe_cases.is_empty() {
         out.write_cases("C07oe", "From LP Require Import Num Pay Sg1 Bank MinterVending MinterOpen SaleOeCorr.", "oecase", "sale_oe_check", &oe_cases, 6, &mut rep);
